@@ -1532,6 +1532,7 @@ func c18R3(c *Ctx, fns []*ssa.Function, fields map[string]types.Type) {
 			}
 		})
 	}
+	c18R3SingleSource(c, R3, fns)
 	// what is ingested: MarshalIndent(content) taken after the auths refresh, behind its success edge
 	found := false
 	for _, fn := range fns {
@@ -1601,6 +1602,108 @@ func c18R3(c *Ctx, fns []*ssa.Function, fields map[string]types.Type) {
 	}
 	if !found {
 		c.LostAnchor(R3, "call of the ingest function from credentials/internal/config")
+	}
+}
+
+// c18R3SingleSource: the credential a Get returns is decoded from an entry of the
+// auths map read in that call.  A second container of entries (a memo in another
+// field / global, a sync.Map) that Get reads from serves stale entries after a
+// Put/Delete through another key form — unless every function that writes the
+// auths map clears that container completely.  Only positively identified second
+// containers are reported (unknown value shapes are not).
+func c18R3SingleSource(c *Ctx, R3 string, fns []*ssa.Function) {
+	for _, G := range fns {
+		if G.Parent() != nil || G.Object() == nil || !G.Object().Exported() || G.Signature.Recv() == nil {
+			continue
+		}
+		res := G.Signature.Results()
+		returnsCred := false
+		for i := 0; i < res.Len(); i++ {
+			if n, ok := res.At(i).Type().(*types.Named); ok && n.Obj().Name() == "Credential" {
+				returnsCred = true
+			}
+		}
+		if !returnsCred || len(c11FieldReads(G, c18Cfg+"."+c18FAuths)) == 0 && !c11Reaches(G, "encoding/json.Unmarshal", 1) {
+			continue
+		}
+		var bad []string
+		var pos token.Pos
+		n := 0
+		for _, um := range CallsTo(G, "encoding/json.Unmarshal") {
+			n++
+			var leaves []ssa.Value
+			c12ExpandValue(fns, um.Common().Args[0], 0, map[ssa.Value]bool{}, &leaves)
+			for _, lf := range leaves {
+				v := lf
+				if ta, ok := v.(*ssa.TypeAssert); ok {
+					v = ta.X
+				}
+				if ex, ok := v.(*ssa.Extract); ok {
+					v = ex.Tuple
+				}
+				switch u := v.(type) {
+				case *ssa.Lookup:
+					if fld := fieldOfFuncValue(u.X); fld != "" && fld != c18Cfg+"."+c18FAuths && strings.HasPrefix(fld, c18Cfg+".") {
+						bad, pos = append(bad, "map field "+fld), u.Pos()
+					}
+					if ld, ok := u.X.(*ssa.UnOp); ok {
+						if g, isG := ld.X.(*ssa.Global); isG {
+							bad, pos = append(bad, "package variable "+g.Name()), u.Pos()
+						}
+					}
+				case *ssa.Call:
+					if nm := CalleeName(u); nm == "(*sync.Map).Load" || nm == "(*sync.Map).LoadOrStore" || nm == "(*sync.Map).Swap" {
+						what := "a sync.Map"
+						if fa, ok := u.Call.Args[0].(*ssa.FieldAddr); ok {
+							what = "sync.Map field " + fieldName(fa.X.Type(), fa.Field)
+							// tolerated when every writer of the auths map clears it completely
+							cleared := true
+							for _, f := range fns {
+								writes := false
+								auths := c11FieldReads(f, c18Cfg+"."+c18FAuths)
+								AllInstrs(f, func(in ssa.Instruction) {
+									switch w := in.(type) {
+									case *ssa.MapUpdate:
+										if auths[w.Map] {
+											writes = true
+										}
+									case *ssa.Call:
+										if CalleeName(w) == "builtin:delete" && auths[w.Call.Args[0]] {
+											writes = true
+										}
+									}
+								})
+								if !writes {
+									continue
+								}
+								ok := false
+								for _, cl := range CallsTo(f, "(*sync.Map).Clear") {
+									if fa2, isFA := cl.Common().Args[0].(*ssa.FieldAddr); isFA && fa2.Field == fa.Field {
+										ok = true
+									}
+								}
+								if !ok {
+									cleared = false
+								}
+							}
+							if cleared {
+								continue
+							}
+						}
+						bad, pos = append(bad, what), u.Pos()
+					}
+				}
+			}
+		}
+		if n == 0 {
+			continue
+		}
+		ok := len(bad) == 0
+		if pos == token.NoPos {
+			pos = G.Pos()
+		}
+		c.Check(R3, FnName(G)+"|credentials-read-only-from-auths", pos, ok, ifelse(ok, "the entry decoded by Get is read from the auths map in the same call; no second container of entries is consulted",
+			"Get also decodes entries taken from "+strings.Join(bad, ", ")+", a second container that Put/Delete do not clear completely: after a Put/Delete through another form of the key (\"https://host/\" vs host) Get keeps returning the overwritten / deleted credential"))
 	}
 }
 
@@ -1954,6 +2057,10 @@ var c18Mutants = []Mutant{
 	{Name: "copy-through-anonymous-wrapper", File: "registry/remote/credentials/internal/ioutil/ioutil.go",
 		Old: "\tif _, err := io.Copy(tempFile, content); err != nil {", New: "\tif _, err := io.Copy(struct{ io.Writer }{tempFile}, content); err != nil {",
 		Expect: "C18.R1.atomic-replace|~/registry/remote/credentials/internal/ioutil.Ingest|copy-destination-is-temp-file"},
+	{Name: "legacy-key-memo", File: "registry/remote/credentials/internal/config/config.go",
+		Old:    "func (cfg *Config) GetCredential(serverAddress string) (auth.Credential, error) {\n\tcfg.rwLock.RLock()\n\tdefer cfg.rwLock.RUnlock()\n\n\tauthCfgBytes, ok := cfg.authsCache[serverAddress]\n",
+		New:    "var legacyMemo sync.Map\n\nfunc (cfg *Config) GetCredential(serverAddress string) (auth.Credential, error) {\n\tcfg.rwLock.RLock()\n\tdefer cfg.rwLock.RUnlock()\n\n\tauthCfgBytes, ok := cfg.authsCache[serverAddress]\n\tif cached, hit := legacyMemo.Load(serverAddress); !ok && hit {\n\t\tauthCfgBytes, ok = cached.(json.RawMessage), true\n\t}\n",
+		Expect: "C18.R3.preservation|(*~/registry/remote/credentials/internal/config.Config).GetCredential|credentials-read-only-from-auths"},
 	// R5
 	{Name: "decoder-url-alphabet", File: "registry/remote/credentials/internal/config/config.go",
 		Old: "base64.StdEncoding.DecodeString(authStr)", New: "base64.URLEncoding.DecodeString(authStr)",
